@@ -2,7 +2,7 @@
    E is the kernel block cipher (AES-128 in the example algorithm set). Rotations are by whole octets because
    r1..r5 = 64, 0, 32, 64, 96 bits; constants c1..c5 are 128-bit values with only the low octet non-zero. *)
 From Coq Require Import NArith List Lia Bool.
-Require Import Bytes AES.
+Require Import Bytes BytesLemmas AES.
 Import ListNotations.
 Open Scope N_scope.
 
@@ -27,9 +27,50 @@ Definition f3  k opc rand := outn 4 2 k opc rand.
 Definition f4  k opc rand := outn 8 4 k opc rand.
 Definition f5s k opc rand := firstn 6 (outn 12 8 k opc rand).
 
-(* AUTN as the network builds it, and what a USIM accepts (TS 33.102 6.3) *)
+(* ---- TS 33.102 6.3: authentication and key agreement built on f1..f5*
+
+   6.3.2 (HE/AuC): AUTN = SQN xor AK || AMF || MAC, with MAC = f1_K(SQN || RAND || AMF), AK = f5_K(RAND);
+   the authentication vector carries XRES = f2, CK = f3, IK = f4. *)
 Definition autn (k opc rand sqn amf:bytes) : bytes :=
   xor_bytes sqn (f5 k opc rand) ++ amf ++ f1 k opc rand sqn amf.
+Record av := { av_autn : bytes; av_xres : bytes; av_ck : bytes; av_ik : bytes }.
+Definition generate_av (k opc rand sqn amf:bytes) : av :=
+  {| av_autn := autn k opc rand sqn amf; av_xres := f2 k opc rand; av_ck := f3 k opc rand; av_ik := f4 k opc rand |}.
+
+(* fields of a received AUTN (16 octets) *)
+Definition autn_conc_sqn (a:bytes) : bytes := firstn 6 a.
+Definition autn_amf (a:bytes) : bytes := firstn 2 (skipn 6 a).
+Definition autn_mac (a:bytes) : bytes := skipn 8 a.
+
+(* 6.3.3 (USIM): AK = f5_K(RAND); SQN = (SQN xor AK) xor AK; XMAC = f1_K(SQN || RAND || AMF); if XMAC differs
+   from MAC: user authentication reject, abandon.  Next the USIM verifies that SQN is in the correct
+   range -- here: greater than the highest value SQN_MS it has accepted (Annex C leaves finer schemes to
+   the operator).  If not: synchronisation failure carrying AUTS.  Otherwise RES = f2, CK = f3, IK = f4. *)
+Definition sqn_val (s:bytes) : N := be_to_N s.                (* the 48-bit sequence number *)
+Definition autn_sqn (k opc rand a:bytes) : bytes := xor_bytes (autn_conc_sqn a) (f5 k opc rand).
+Definition mac_valid (k opc rand a:bytes) : bool :=
+  bytes_eqb (f1 k opc rand (autn_sqn k opc rand a) (autn_amf a)) (autn_mac a).
+Definition sqn_fresh (k opc rand a sqn_ms:bytes) : bool := sqn_val sqn_ms <? sqn_val (autn_sqn k opc rand a).
+
+(* 6.3.3: AUTS = Conc(SQN_MS) || MAC-S, Conc(SQN_MS) = SQN_MS xor f5*_K(RAND),
+   MAC-S = f1*_K(SQN_MS || RAND || AMF) with the dummy AMF of all zeros *)
+Definition auts (k opc rand sqn_ms:bytes) : bytes :=
+  xor_bytes sqn_ms (f5s k opc rand) ++ f1s k opc rand sqn_ms [0;0].
+
+Inductive usim_outcome := Accept (res ck ik:bytes) | MacFailure | SyncFailure (auts:bytes).
+Definition usim_check (k opc rand a sqn_ms:bytes) : usim_outcome :=
+  if negb (mac_valid k opc rand a) then MacFailure
+  else if negb (sqn_fresh k opc rand a sqn_ms) then SyncFailure (auts k opc rand sqn_ms)
+  else Accept (f2 k opc rand) (f3 k opc rand) (f4 k opc rand).
+(* the accepting condition alone (what "accepts exactly valid AUTNs" refers to) *)
+Definition usim_accepts (k opc rand a sqn_ms:bytes) : bool :=
+  mac_valid k opc rand a && sqn_fresh k opc rand a sqn_ms.
+
+(* 6.3.5 (HE/AuC on a synchronisation failure): retrieve SQN_MS = Conc(SQN_MS) xor f5*_K(RAND) and accept it
+   iff MAC-S verifies; Some SQN_MS / None *)
+Definition auts_check (k opc rand t:bytes) : option bytes :=
+  let sqn_ms := xor_bytes (firstn 6 t) (f5s k opc rand) in
+  if bytes_eqb (f1s k opc rand sqn_ms [0;0]) (skipn 6 t) then Some sqn_ms else None.
 End Milenage.
 
 (* TS 35.208 test set 1 *)
@@ -48,4 +89,16 @@ Example ts35208_set1 :
   f4  aes128 k1 opc1 rnd1 = [247;105;188;215;81;4;70;4;18;118;114;113;28;109;52;65] /\
   f5  aes128 k1 opc1 rnd1 = [170;104;156;100;131;112] /\
   f5s aes128 k1 opc1 rnd1 = [69;30;139;236;164;59].
+Proof. vm_compute. repeat split; reflexivity. Qed.
+
+(* TS 35.208 set 1 through the TS 33.102 procedures: the AUTN the network builds is accepted by a USIM
+   whose SQN_MS is one less, rejected with an AUTS when it is equal, and that AUTS gives SQN_MS back *)
+Definition sqn1_minus1 : bytes := [255;155;180;208;182;6].
+Example ts33102_set1 :
+  autn aes128 k1 opc1 rnd1 sqn1 amf1 = [85;243;40;180;53;119;185;185;74;159;250;195;84;223;175;179] /\
+  usim_check aes128 k1 opc1 rnd1 (autn aes128 k1 opc1 rnd1 sqn1 amf1) sqn1_minus1
+    = Accept (f2 aes128 k1 opc1 rnd1) (f3 aes128 k1 opc1 rnd1) (f4 aes128 k1 opc1 rnd1) /\
+  usim_check aes128 k1 opc1 rnd1 (autn aes128 k1 opc1 rnd1 sqn1 amf1) sqn1 = SyncFailure (auts aes128 k1 opc1 rnd1 sqn1) /\
+  auts_check aes128 k1 opc1 rnd1 (auts aes128 k1 opc1 rnd1 sqn1) = Some sqn1 /\
+  usim_check aes128 k1 opc1 rnd1 (0 :: skipn 1 (autn aes128 k1 opc1 rnd1 sqn1 amf1)) sqn1_minus1 = MacFailure.
 Proof. vm_compute. repeat split; reflexivity. Qed.
